@@ -64,6 +64,21 @@ def suite_validate(report, tier, seed, prop="C16"):
     n = 2500 if tier == "quick" else 60000
     cases = []
     enc_reqs = []
+    # a fixed corpus first: every class of topic filter x what the server announced x No Local, for both packet kinds
+    filters = [b"a/b", b"a/+/c", b"#", b"a/#", b"+", b"$share/g/a", b"$share/g/+/x", b"$share/g/#", b"$share/g/a/b/+",
+               b"$share", b"$share/g", b"$share//a", b"$share/g/", b"$share/+/a", b"$share/g#/a", b"a/#/b", b"a+", b"", b"a\x00b", b"/", b"//", b"$sharex/g/a"]
+    fixed = []
+    for fl in filters:
+        for nl in (0, 1):
+            fixed.append(f"subscribe pid=0 sub={hexs(fl)}:1:{nl}:0:0")
+        fixed.append(f"unsubscribe pid=0 tf={hexs(fl)}")
+    corpus_settings = [f"mq=2 wsa={w} ssa={sh}" for w in (0, 1) for sh in (0, 1)]
+    fixed_cases = [(pkt, st) for pkt in fixed for st in corpus_settings]
+    forced = {}
+    for pkt, st in fixed_cases:
+        forced[len(cases)] = st
+        cases.append(pkt)
+        enc_reqs.append(f"encode v=5 caps=100000 | {pkt}")
     for _ in range(n):
         pkt = G.gen_validation_packet(rng)
         cases.append(pkt)
@@ -76,7 +91,7 @@ def suite_validate(report, tier, seed, prop="C16"):
         size = None
         if f.get("res") == "ok":
             size = sum((len(x) - 1) // 2 for x in f.get("chunks", "").split(",") if x)
-        settings = G.gen_settings(rng, size)
+        settings = forced.get(len(metas)) or G.gen_settings(rng, size)
         # the internal validators see the packet with its packet id bound
         kind, kv = parse_kv(pkt)
         bound = pkt
